@@ -129,7 +129,14 @@ def setup(reg):
         if pr is not None:
             res.append((pr, Raise("GeneratorException", "code generator raised")))
         if pn is not None:
-            res.append((pn, z3.Function("val2str", Val, S)(GEN(ast, expose))))
+            extras = sorted(k for k in at if k not in ("experiment_ast", "expose_experiment_variant_function", "indentation_char"))
+            if extras:
+                # the generator was given something besides the syntax tree and the layout flag: its output is then NOT the
+                # documented GEN(ast, expose) but some other function that also sees those arguments
+                out = uf("GEN_with:" + ",".join(extras), ast, expose, *[at[k] for k in extras])
+            else:
+                out = GEN(ast, expose)
+            res.append((pn, z3.Function("val2str", Val, S)(out)))
         return res
     reg.methods[(GENCLS, "generate")] = generate
 
@@ -399,7 +406,8 @@ class Recompile(Contract):
         if "accepted-text-parses" in name:
             return ("C06", "C11")
         if "pipeline-as-documented" in name:
-            return ("C14", "C09", "C13", "C07")
+            # the compiled function depends on the text only THROUGH the syntax tree: also what makes trivia meaningless (C08)
+            return ("C14", "C09", "C13", "C07", "C08")
         if name.startswith("ensures.switches-completely") or name.startswith("ensures.no-op") or name.startswith("ensures.invariant"):
             # the evaluator runs the text it was last given: every property about "the experiment's behaviour" relies on it
             return ("C11", "C01", "C02", "C05", "C08", "C09", "C12")
